@@ -325,6 +325,8 @@ impl Ctx {
         let n = v.len();
         let dir = verif_root().join("replays").join(&self.id);
         let _ = std::fs::create_dir_all(&dir);
+        // a child process exploring the same check in another build configuration marks its sub-checks
+        let sub = &format!("{sub}{}", std::env::var("VERIF_SUB_SUFFIX").unwrap_or_default());
         let path = dir.join(format!("{}-{}-seed{}-{}.json", sub, self.tier.name(), self.seed, n));
         let doc = json!({"property": self.id, "check": sub, "signature": fail.sig, "message": fail.msg, "case": case});
         let _ = std::fs::write(&path, serde_json::to_string_pretty(&doc).unwrap());
@@ -707,4 +709,36 @@ pub fn set_trace_logging(on: bool) {
 /// Octets of log text rendered on this thread so far.
 pub fn rendered_log_octets() -> u64 {
     RENDERED.with(|r| r.get())
+}
+
+
+// --------------------------------------------------------------------------------------------
+// Environment: none of the properties has an environment in its quantifier, so what they state must
+// hold whatever the process environment says. Checks call this between two generated searches (when
+// no other thread of the harness is running) to put values into variables that print software
+// commonly consults.
+// --------------------------------------------------------------------------------------------
+
+pub const UNUSUAL_ENV: &[(&str, &str)] = &[
+    ("IPP_PORT", "8631"),
+    ("CUPS_SERVER", "cups.example.net:8631"),
+    ("CUPS_ENCRYPTION", "Never"),
+    ("CUPS_USER", "verif-cups-user"),
+    ("LANG", "de_DE.UTF-8"),
+    ("LC_ALL", "de_DE.UTF-8"),
+    ("LC_MESSAGES", "fr_FR.UTF-8"),
+    ("LANGUAGE", "de:fr"),
+    ("TZ", "Pacific/Kiritimati"),
+    ("USER", "verif-env-user"),
+    ("LOGNAME", "verif-env-user"),
+    ("PRINTER", "verif-env-printer"),
+    ("LPDEST", "verif-env-printer"),
+];
+
+pub fn apply_unusual_env(ctx: &Ctx) {
+    for (k, v) in UNUSUAL_ENV {
+        std::env::set_var(k, v);
+    }
+    ctx.assume(&format!("the later generated searches of this check run with these environment variables set: {}", UNUSUAL_ENV.iter().map(|(k, v)| format!("{k}={v}")).collect::<Vec<_>>().join(" ")));
+    ctx.label("environment variables set for the later searches");
 }
